@@ -470,7 +470,7 @@ def run(tier, seed):
             return j
 
         # ---------------------------------------------------- histories in one process, one thread
-        n_hist = 40 if quick else 1500
+        n_hist = 60 if quick else 1500
         scns = []
         for i in range(n_hist):
             rng = Rng.for_case(seed, "c11-history", i)
@@ -478,11 +478,15 @@ def run(tier, seed):
             k = 1 + rng.below(12 if quick else 50)
             jobs = []
             anchor = rng.pick(fast)
-            focus_groups = [g for g in ([j for j in fast if j.get("history_only")],
+            # every other history concentrates on one group of jobs that can leave something
+            # behind for each other (same output path, same search-path cache key); the
+            # groups take turns so that each is exercised in every run
+            focus_groups = [g for g in ([j for j in fast if j["id"].startswith("static-fns-wrap-shared-path")],
+                                        [j for j in fast if j["id"].startswith("depfile-same-path")],
                                         [j for j in fast if j["id"].startswith("sys-")]) if g]
-            focus = rng.pick(focus_groups) if (focus_groups and rng.chance(300)) else None
+            focus = focus_groups[(i // 2) % len(focus_groups)] if (focus_groups and i % 2 == 1) else None
             for _ in range(k):
-                if focus and rng.chance(600):
+                if focus and rng.chance(750):
                     jobs.append(mk(rng.pick(focus), rng))
                 else:
                     jobs.append(mk(anchor if rng.chance(300) else rng.pick(fast), rng))
@@ -508,7 +512,8 @@ def run(tier, seed):
             threads = []
             # a third of the scenarios put generations that can meet on shared
             # files (same output directory, same working directory) side by side
-            group = rng.pick(contention_groups) if contention_groups and rng.chance(450) else None
+            # every other scenario is a contention scenario; the groups take turns
+            group = contention_groups[(i // 2) % len(contention_groups)] if (contention_groups and i % 2 == 1) else None
             for t in range(nt):
                 if group:
                     threads.append([mk(rng.pick(group), rng) for _ in range(per)])
